@@ -149,7 +149,8 @@ def finishHole (raw : List Char) (escaped : Bool) : List Char :=
 /-! ### The hole as a field-value (syn `FieldValue`; only what the visitor reads: attributes, key identifier) -/
 
 def isWs (c : Char) : Bool := c = ' ' || c = '\t' || c = '\n' || c = '\r'
-def isIdentChar (c : Char) : Bool := c.isAlphanum || c = '_'
+/-- Identifier characters; non-ASCII characters are accepted without consulting the XID tables (approximation). -/
+def isIdentChar (c : Char) : Bool := c.isAlphanum || c = '_' || 128 ≤ c.toNat
 
 /-- Split `#[ … ]` off the front: returns the attribute body and the rest. Brackets nest; string literals are opaque. -/
 def takeAttr : Nat → Bool → List Char → List Char → Option (List Char × List Char)
